@@ -125,11 +125,13 @@ def register_init(reg):
 def register_assemble(reg):
     C = reg.contract
     REM = "(file_tail(feeder.current) + rest(feeder.paths, feeder.index + 1))"
+    REM_A = "(file_tail(feeder.current) + zeros(gap(len(file_tail(feeder.current)), feeder.piece_length)) + rest_aligned(feeder.paths, feeder.index + 1, feeder.piece_length))"
     C("torrentfile.torrent.TorrentFile.assemble",
       props=["C01", "C15"],
       params={"self": {"cls": "torrentfile.torrent.TorrentFile",
                        "fields": {"meta": "dict", "path": "str", "progress": "int", "align": "bool", "piece_length": "int"}}},
       ghost={"j": "int"},
+      ghost_flags=["gap_use_mod"],
       requires=["('info' in self.meta) and is_dict(self.meta['info'])", "self.piece_length > 0",
                 "not ('files' in self.meta['info']) and not ('length' in self.meta['info'])",
                 "('piece length' in self.meta['info']) and is_int(self.meta['info']['piece length']) and "
@@ -138,6 +140,14 @@ def register_assemble(reg):
           ("C01", "pieces_are_the_bep3_hashing_of_the_listed_files_cut_with_the_recorded_piece_length",
            "implies(not self.align or fs_isfile(self.path), self.meta['info']['pieces'] == "
            "v1_pieces(rest(listed_files(), 0), as_int(self.meta['info']['piece length'])))"),
+          ("C15", "aligned_pieces_hash_the_stream_with_padding_as_zero_bytes",
+           "implies(self.align and not fs_isfile(self.path), self.meta['info']['pieces'] == "
+           "v1_pieces(rest_aligned(listed_files(), 0, self.piece_length), self.piece_length))"),
+          ("C15", "listed_lengths_account_exactly_for_the_hashed_bytes",
+           "implies(self.align and not fs_isfile(self.path), sum_lengths(self.meta['info']['files']) == "
+           "declared_len(listed_files(), len(listed_files()), self.piece_length))"),
+          ("C15", "single_file_is_hashed_as_the_file_alone",
+           "implies(fs_isfile(self.path), self.meta['info']['pieces'] == v1_pieces(rest(listed_files(), 0), self.piece_length))"),
           ("C01", "every_listed_file_appears_once_in_order_with_its_exact_length",
            "implies(not fs_isfile(self.path) and not self.align, len(self.meta['info']['files']) == len(listed_files()) and "
            "implies(0 <= j < len(listed_files()), self.meta['info']['files'][j]['length'] == len(fs_data(listed_files()[j])) and "
@@ -147,13 +157,20 @@ def register_assemble(reg):
            "implies(fs_isfile(self.path), self.meta['info']['length'] == listed_total() and not ('files' in self.meta['info']))"),
       ],
       raises={"torrentfile.utils.MissingPathError": {}, "IndexError": {}},
-      loops={0: {"invariant": ["True"], "modifies": []},
+      loops={0: {"index": "_i0", "invariant": [
+                     ("listed_lengths_account_for_the_declared_bytes",
+                      "sum_lengths(info['files']) == declared_len(filelist, _i0, self.piece_length)"),
+                 ], "modifies": []},
              1: {"protocol": True, "modifies": ["feeder", "pieces"],
-                        "let": {"S_head": REM},
-                        "assume_in_body": [f"v1_unfold(S_head, hashed(), {REM}, feeder.piece_length)"],
+                        "let": {"S_head": REM, "A_head": REM_A},
+                        "assume_in_body": [f"v1_unfold(S_head, hashed(), {REM}, feeder.piece_length)",
+                                           f"v1_unfold(A_head, hashed(), {REM_A}, feeder.piece_length)"],
                         "invariant": [
                             ("pieces_so_far_plus_rest_is_the_whole",
                              f"implies(not feeder.align, pieces + v1_pieces({REM}, feeder.piece_length) == v1_pieces(rest(filelist, 0), self.piece_length))"),
+                            ("aligned_pieces_so_far_plus_rest_is_the_whole_declared_stream",
+                             f"implies(feeder.align, pieces + v1_pieces({REM_A}, feeder.piece_length) == "
+                             "v1_pieces(rest_aligned(filelist, 0, self.piece_length), self.piece_length))"),
                             ("feeder_wf", "feeder.paths == filelist and feeder.piece_length == self.piece_length and feeder.piece_length > 0 "
                                           "and feeder.align == (self.align and not fs_isfile(self.path)) and 0 <= feeder.index and "
                                           "file_open(feeder.current) and implies(feeder.index >= len(feeder.paths), file_at_eof(feeder.current))"),
